@@ -35,7 +35,8 @@ OnRx(m, e) ==
     ELSE IF e.type = "CONNACK" THEN
              IF m.phase \notin {"sent"} \/ e.rc # 0 THEN Breach(m, e, "bad-connack-accepted")
              ELSE [m EXCEPT !.phase = "up", !.connected = TRUE, !.rx = [ok |-> TRUE, e |-> e]]
-    ELSE IF m.phase \in {"fresh", "sent"} THEN Breach(m, e, "pre-connack-packet-accepted")
+    \* "any other packet before CONNACK": bytes that are not (yet) a packet - the beginning of a frame - oblige the client to nothing
+    ELSE IF m.phase \in {"fresh", "sent"} /\ e.decoded = 1 THEN Breach(m, e, "pre-connack-packet-accepted")
     ELSE m
 
 Dflt(v, d) == IF v = -1 THEN d ELSE v
